@@ -13,6 +13,7 @@ import (
 	"fmt"
 	"os"
 	"sync"
+	"time"
 )
 
 type inputVal struct {
@@ -298,3 +299,19 @@ func SetParam(name string, v int) {
 // SameSymbol reports whether two bytes are the very same symbolic value (engine) /
 // equal (natively).
 func SameSymbol(a, b byte) bool { return a == b }
+
+// AtVisibleOp arranges for fn to run right before the n-th visible operation
+// (channel / sync / context / file-system call of any goroutine) from now; n <= 0
+// runs it at once. Natively the instant is approximated by a timer.
+func AtVisibleOp(n int, fn func()) {
+	if n <= 0 {
+		fn()
+		return
+	}
+	go func() {
+		time.Sleep(time.Duration(n) * 15 * time.Microsecond)
+		fn()
+	}()
+}
+
+func VisibleOps() int { return 0 }
